@@ -45,22 +45,26 @@ fn gm_case(ctx: Ctx, has_frame: bool) {
     vm.interpreter_params.tx_offset = tx_offset;
     let owner: Option<Word> = if kani::any() { Some(kani::any()) } else { None };
     vm.owner_ptr = owner;
-    // a runtime predicate for input 0 or 1 of a two-predicate transaction (RuntimePredicate has no raw constructor)
-    let pred_idx: usize = if kani::any() { 0 } else { 1 };
-    let ptx = {
+    // a runtime predicate for input 0 or 1 of a two-predicate transaction (RuntimePredicate has no raw
+    // constructor); only built in the predicate contexts
+    // (a harness constant: a symbolic index turns `inputs().iter().take(idx)` into a loop unrolled to the global bound)
+    let pred_idx: usize = if ctx == Ctx::PredEstimate { 1 } else { 0 };
+    let mk_rp = || {
         let mk = || Input::coin_predicate(UtxoId::default(), Address::zeroed(), 0, AssetId::zeroed(), TxPointer::default(), 0, alloc::vec![0u8; 4], Vec::new());
-        Transaction::script(0, Vec::new(), Vec::new(), Policies::new(), alloc::vec![mk(), mk()], Vec::new(), Vec::new())
+        let ptx = Transaction::script(0, Vec::new(), Vec::new(), Policies::new(), alloc::vec![mk(), mk()], Vec::new(), Vec::new());
+        let rp = RuntimePredicate::from_tx(&ptx, 1000, pred_idx).unwrap();
+        core::mem::forget(ptx);
+        rp
     };
-    let rp = RuntimePredicate::from_tx(&ptx, 1000, pred_idx).unwrap();
     let saved_fp: Word = kani::any();
     match ctx {
         Ctx::Script => vm.context = Context::Script { block_height: Default::default() },
         Ctx::Call => vm.context = Context::Call { block_height: Default::default() },
-        Ctx::PredVerify => vm.context = Context::PredicateVerification { program: rp.clone() },
-        Ctx::PredEstimate => vm.context = Context::PredicateEstimation { program: rp.clone() },
+        Ctx::PredVerify => vm.context = Context::PredicateVerification { program: mk_rp() },
+        Ctx::PredEstimate => vm.context = Context::PredicateEstimation { program: mk_rp() },
     }
     if has_frame {
-        let mut saved: [Word; VM_REGISTER_COUNT] = kani::any();
+        let mut saved: [Word; VM_REGISTER_COUNT] = [0; VM_REGISTER_COUNT];
         saved[R_FP] = saved_fp;
         vm.frames.push(CallFrame::new(ContractId::zeroed(), AssetId::zeroed(), saved, 0, kani::any(), kani::any()).unwrap());
     }
